@@ -321,6 +321,7 @@ pub fn def() -> PropDef {
                 cases_quick: 40_000,
                 cases_thorough: 120_000,
                 max_shrink_iters: 3000,
+                limit_factor: 1,
                 strategy: || case_strategy(false),
                 check: run_case,
             }),
@@ -330,6 +331,7 @@ pub fn def() -> PropDef {
                 cases_quick: 40_000,
                 cases_thorough: 120_000,
                 max_shrink_iters: 3000,
+                limit_factor: 1,
                 strategy: || case_strategy(true),
                 check: run_case,
             }),
